@@ -71,6 +71,14 @@ CHECKS = {
          'CPython parse of the result in the spec-defined embedding incl. positions, leaf sequence, identity, formatted vs '
          'pure AST, operand untouched, put equivalence, coerce=False refusal and atomicity.',
          'TLA+/TLC model checking of CoerceMC + exhaustive spec-generated matrix replay + batched TLC trace validation'),
+ 'C15': ('model_checking', '4-C15',
+         'Explicit TLA+ model of the walk generator (WalkGen.tla) model-checked exhaustively for all ordered trees <= 3 '
+         '(quick) / <= 4 (thorough) nodes x on x back x recurse x self_ x every interleaving with <= 2 replace(keep | new '
+         'FST) / remove mutations and send(), against property-shaped laws (WalkLaws.tla); the same laws validate every '
+         'recorded real execution (WalkAccept.tla): the replayed model behaviours and random walk/search/sub runs over the '
+         'corpus including scope=True and filters.',
+         'TLC model checking + bidirectional conformance: spec behaviours replayed into pfst with yield-sequence comparison, '
+         'real executions trace-validated by TLC (WalkAccept) with clause-named verdicts'),
 }
 
 NOT_YET = {}
